@@ -22,6 +22,7 @@ def parseFault (s : String) : Option Fault :=
 /-- `xa <fault> <commit|rollback>` ; `id <xid text> <branch>` -/
 def handle (ws : List String) : String :=
   match ws with
+  | ["skip"] => "skip"      -- a case decided by the oracle on the implementation alone
   | ["xa", f, p2] =>
     match parseFault f with
     | none => "bad-fault"
